@@ -188,4 +188,9 @@ def cases(seed, tier):
             cls = COND_CLASSES[int(rng.integers(0, 4))]
             Dy, Dx = dims_for(cls, rng)
             out.append(case_cond_ops(cls, int(rng.integers(1, 7)), Dy, Dx))
+    try:
+        from . import approx_hetero
+        out.extend(approx_hetero.c12_hetero_cases(seed, tier))
+    except ImportError:
+        pass
     return seeded(out, seed)
